@@ -712,7 +712,7 @@ fn body(ctx: &mut Ctx) {
                     for sb in 0..tier.pick(10u64, 28u64) {
                         let a = mk(&alpha::lcg_digits(la, 100 + sa));
                         let b = mk(&alpha::lcg_digits(lb, sb));
-                        div_pair(ctx, &a, &b, la <= 8);
+                        div_pair(ctx, &a, &b, la <= 8 || (sa == 0 && sb == 0));
                     }
                 }
                 ctx.sample(|| format!("dense LCG digits: len(a)={} len(b)={} x 3 dividends x 10 divisors (top digit shifted by 0,7,...,63 bits)", la, lb));
